@@ -49,13 +49,14 @@ Rhs(c, z, dE) == IPow(z[1], c.n - 1) * Pow2(M + 1) * (IF dE < 0 THEN Pow2(Clamp(
 Decidable(c, z, dE, ui) == dE >= 12 \/ dE <= -12 \/ Lhs(c, z, dE, ui) # Rhs(c, z, dE)
 AcceptW(c, z, dE, ui) == IF dE >= 12 THEN FALSE ELSE IF dE <= -12 THEN TRUE ELSE Lhs(c, z, dE, ui) < Rhs(c, z, dE)
 
-VARIABLES ec, pos, wp, iw, natt, iter, rows, rowp, draws, evals, nretry, nstay, props
-evars == <<ec, pos, wp, iw, natt, iter, rows, rowp, draws, evals, nretry, nstay, props>>
+VARIABLES ec, pos, wp, iw, natt, iter, rows, rowp, draws, evals, nretry, nstay, props,
+          fails, curfail      \* diagnostics: fails[k] = walkers that gave up in iteration k (failed_updates); curfail = so far in this iteration
+evars == <<ec, pos, wp, iw, natt, iter, rows, rowp, draws, evals, nretry, nstay, props, fails, curfail>>
 Scale(s) == [i \in 1..Len(s) |-> [d \in 1..Len(s[i]) |-> s[i][d] * D]]
 EInit == /\ ec \in EConfigs
          /\ pos = Scale(ec.start) /\ wp = [i \in 1..ec.w |-> Energy(ec, Scale(ec.start)[i])]
          /\ iw = 1 /\ natt = 0 /\ iter = 0 /\ rows = <<>> /\ rowp = <<>> /\ draws = <<>> /\ evals = <<>>
-         /\ nretry = 0 /\ nstay = 0 /\ props = <<>>
+         /\ nretry = 0 /\ nstay = 0 /\ props = <<>> /\ fails = <<>> /\ curfail = 0
 
 \* partner as coded: j = (jraw + i) mod w on 0-based indices, jraw in 1..w-1
 Partner(i, jraw) == ((jraw + (i - 1)) % ec.w) + 1
@@ -72,18 +73,19 @@ WAttempt(jraw, uz, ui) ==
              /\ IF AcceptW(ec, z, dE, ui)
                 THEN /\ pos' = [pos EXCEPT ![iw] = y] /\ wp' = [wp EXCEPT ![iw] = Energy(ec, y)]
                      /\ props' = Append(props, natt + 1)
-                     /\ NextWalker /\ UNCHANGED <<nretry, nstay>>
+                     /\ NextWalker /\ UNCHANGED <<nretry, nstay, curfail>>
                 ELSE /\ UNCHANGED <<pos, wp>>
                      /\ \/ /\ nstay = 0 /\ nretry' = nretry + 1 /\ UNCHANGED nstay                       \* RejectRetry (as built)
-                           /\ IF natt + 1 >= MaxAttW THEN NextWalker /\ props' = Append(props, MaxAttW)   \* gives up: walker stays
-                              ELSE natt' = natt + 1 /\ UNCHANGED <<iw, props>>
+                           /\ IF natt + 1 >= MaxAttW THEN NextWalker /\ props' = Append(props, MaxAttW) /\ curfail' = curfail + 1  \* gives up: walker stays
+                              ELSE natt' = natt + 1 /\ UNCHANGED <<iw, props, curfail>>
                         \/ /\ nretry = 0 /\ MaxAttW > 1 /\ nstay' = nstay + 1 /\ UNCHANGED nretry        \* RejectStay (textbook)
-                           /\ NextWalker /\ props' = Append(props, natt + 1)
-    /\ UNCHANGED <<ec, iter, rows, rowp>>
+                           /\ NextWalker /\ props' = Append(props, natt + 1) /\ UNCHANGED curfail
+    /\ UNCHANGED <<ec, iter, rows, rowp, fails>>
 \* end of an iteration: every walker's position and log-probability is stored (copied)
 EndIter == /\ iw = ec.w + 1 /\ iter < MaxIter
            /\ rows' = rows \o pos /\ rowp' = rowp \o wp
            /\ iter' = iter + 1 /\ iw' = 1 /\ natt' = 0
+           /\ fails' = Append(fails, curfail) /\ curfail' = 0
            /\ UNCHANGED <<ec, pos, wp, draws, evals, nretry, nstay, props>>
 ENext == EndIter \/ \E jraw \in 1..(ec.w - 1), uz \in (ZSet \cap ec.zs), ui \in UASet : WAttempt(jraw, uz, ui)
 ESpec == EInit /\ [][ENext]_evars
@@ -101,5 +103,16 @@ Involution == ec.mode = "free" =>
             LET y == Stretch(pos[i], pos[j], z) IN
               /\ Stretch(y, pos[j], <<z[2], z[1]>>) = pos[i]
               /\ \A d \in 1..ec.n : (y[d] - pos[j][d]) * z[2] = z[1] * (pos[i][d] - pos[j][d])   \* on the line through x_j, ratio z
+\* diagnostics (beyond the listed properties): one attempt counter per finished walker update, each within 1..max_attempts; one failure
+\* count per finished iteration, never more than the walkers; as built (every rejection retried) the attempt counters account for
+\* every draw made, and a walker is counted as failed exactly when its counter is max_attempts and its last attempt was rejected
+RECURSIVE SumSeq(_, _)
+SumSeq(q, n) == IF n = 0 THEN 0 ELSE SumSeq(q, n - 1) + q[n]
+Counters == /\ Len(props) = iter * ec.w + (iw - 1)
+            /\ \A k \in 1..Len(props) : props[k] \in 1..MaxAttW
+            /\ Len(fails) = iter /\ \A k \in 1..Len(fails) : fails[k] \in 0..ec.w
+            /\ curfail <= iw - 1
+            /\ (nstay = 0 => Len(draws) = SumSeq(props, Len(props)) + natt)
+            /\ SumSeq(fails, Len(fails)) + curfail <= Cardinality({k \in 1..Len(props) : props[k] = MaxAttW})
 AtIterEnd == iw = 1 /\ natt = 0 /\ iter > 0
 =============================================================================
